@@ -33,12 +33,14 @@ func (p *Probes) inc(name string) {
 
 // Env is the state of one run.
 type Env struct {
-	Sim     *simrt.Sim
-	rootLib map[int]bool // library tasks alive when setup returned: the root's own goroutines
-	Prog    *Program
-	Log     *Log
-	Model   *Model
-	Prop    *Property
+	Sim         *simrt.Sim
+	starveArmed bool
+	starveBase  int
+	rootLib     map[int]bool // library tasks alive when setup returned: the root's own goroutines
+	Prog        *Program
+	Log         *Log
+	Model       *Model
+	Prop        *Property
 
 	Root       tally.Scope
 	RootCloser io.Closer
@@ -88,7 +90,10 @@ type RunResult struct {
 	Overrun    int
 	Trace      []simrt.TraceEntry
 	Infra      string // non-empty: infrastructure problem, not a verdict
-	LogDump    []string
+	// Inconclusive: the run was cut off at the simulator's hard cap while still
+	// making progress; no oracle was applied
+	Inconclusive bool
+	LogDump      []string
 }
 
 // Property bundles generator and oracle of one property.
@@ -145,7 +150,10 @@ func RunOne(t *testing.T, prop *Property, prog *Program, ch *simrt.Chooser, trac
 		}
 	}()
 	synctest.Test(t, func(t *testing.T) {
-		sim := simrt.New(simConfig(&prog.Cfg, trace), ch)
+		sc := simConfig(&prog.Cfg, trace)
+		sc.Progress = func() int { return env.Log.Seq() }
+		sc.Starved = func() string { return env.starved() }
+		sim := simrt.New(sc, ch)
 		env = &Env{Sim: sim, Prog: prog, Log: &Log{}, Model: NewModel(&prog.Cfg), Prop: prop, snaps: map[int]*SnapCopy{}}
 		simnet.Net = &simnet.Network{}
 		env.Net = simnet.Net
@@ -166,8 +174,12 @@ func RunOne(t *testing.T, prop *Property, prog *Program, ch *simrt.Chooser, trac
 			}
 		case sim.Deadlock != "":
 			res.Violations = append(res.Violations, Violation{Class: "deadlock", Msg: "deadlock: no task can make progress: " + sim.Deadlock})
+		case sim.Inconclusive != "":
+			// cut off at the hard cap while still making progress: neither a
+			// violation nor a run the oracles can be applied to
+			res.Inconclusive = true
 		case sim.Livelock != "":
-			res.Violations = append(res.Violations, Violation{Class: "livelock", Msg: "no completion within the step budget under fair scheduling: " + sim.Livelock})
+			res.Violations = append(res.Violations, Violation{Class: "livelock", Msg: "no completion under fair scheduling: " + sim.Livelock})
 		default:
 			res.Violations = prop.Check(env)
 			if prop.Interest != nil {
